@@ -18,13 +18,13 @@ type OpSpec struct {
 }
 
 var opSpecs = map[int]*OpSpec{
-	opAdd: {opAdd, "Add", 2, func(z *Dec, a []*Dec) { z.Add(a[0], a[1]) }, func(v []Val, p uint32, m uint8) RRes { return ModelAdd(v[0], v[1], p, m) }},
-	opSub: {opSub, "Sub", 2, func(z *Dec, a []*Dec) { z.Sub(a[0], a[1]) }, func(v []Val, p uint32, m uint8) RRes { return ModelSub(v[0], v[1], p, m) }},
-	opMul: {opMul, "Mul", 2, func(z *Dec, a []*Dec) { z.Mul(a[0], a[1]) }, func(v []Val, p uint32, m uint8) RRes { return ModelMul(v[0], v[1], p, m) }},
-	opQuo: {opQuo, "Quo", 2, func(z *Dec, a []*Dec) { z.Quo(a[0], a[1]) }, func(v []Val, p uint32, m uint8) RRes { return ModelQuo(v[0], v[1], p, m) }},
-	opFMA: {opFMA, "FMA", 3, func(z *Dec, a []*Dec) { z.FMA(a[0], a[1], a[2]) }, func(v []Val, p uint32, m uint8) RRes { return ModelFMA(v[0], v[1], v[2], p, m) }},
+	opAdd:  {opAdd, "Add", 2, func(z *Dec, a []*Dec) { z.Add(a[0], a[1]) }, func(v []Val, p uint32, m uint8) RRes { return ModelAdd(v[0], v[1], p, m) }},
+	opSub:  {opSub, "Sub", 2, func(z *Dec, a []*Dec) { z.Sub(a[0], a[1]) }, func(v []Val, p uint32, m uint8) RRes { return ModelSub(v[0], v[1], p, m) }},
+	opMul:  {opMul, "Mul", 2, func(z *Dec, a []*Dec) { z.Mul(a[0], a[1]) }, func(v []Val, p uint32, m uint8) RRes { return ModelMul(v[0], v[1], p, m) }},
+	opQuo:  {opQuo, "Quo", 2, func(z *Dec, a []*Dec) { z.Quo(a[0], a[1]) }, func(v []Val, p uint32, m uint8) RRes { return ModelQuo(v[0], v[1], p, m) }},
+	opFMA:  {opFMA, "FMA", 3, func(z *Dec, a []*Dec) { z.FMA(a[0], a[1], a[2]) }, func(v []Val, p uint32, m uint8) RRes { return ModelFMA(v[0], v[1], v[2], p, m) }},
 	opSqrt: {opSqrt, "Sqrt", 1, func(z *Dec, a []*Dec) { z.Sqrt(a[0]) }, func(v []Val, p uint32, m uint8) RRes { return ModelSqrt(v[0], p, m) }},
-	opSet: {opSet, "Set", 1, func(z *Dec, a []*Dec) { z.Set(a[0]) }, func(v []Val, p uint32, m uint8) RRes { return RoundVal(v[0], p, m) }},
+	opSet:  {opSet, "Set", 1, func(z *Dec, a []*Dec) { z.Set(a[0]) }, func(v []Val, p uint32, m uint8) RRes { return RoundVal(v[0], p, m) }},
 	opNeg: {opNeg, "Neg", 1, func(z *Dec, a []*Dec) { z.Neg(a[0]) }, func(v []Val, p uint32, m uint8) RRes {
 		r := RoundVal(v[0], p, m)
 		r.Neg, r.Acc = !r.Neg, -r.Acc
@@ -86,15 +86,15 @@ func partString(p []int) string {
 
 // Pre-states of a receiver that is not aliased to an operand.
 const (
-	preFresh     = iota // zero value + SetPrec/SetMode
-	preLonger           // held a 4-word value, cap 8, stale words B−1 beyond
-	preShorter          // held a 1-word value (cap 1)
-	preInf              // +Inf
-	preNegInf           // −Inf
-	preNegZero          // −0 with a large stale buffer
-	preCapExact         // finite value whose buffer is exactly 2 words
-	preInexact          // finite value with acc = Above and negative sign
-	preBigDirty         // 40-word buffer full of B−1, now holding a 1-word value
+	preFresh    = iota // zero value + SetPrec/SetMode
+	preLonger          // held a 4-word value, cap 8, stale words B−1 beyond
+	preShorter         // held a 1-word value (cap 1)
+	preInf             // +Inf
+	preNegInf          // −Inf
+	preNegZero         // −0 with a large stale buffer
+	preCapExact        // finite value whose buffer is exactly 2 words
+	preInexact         // finite value with acc = Above and negative sign
+	preBigDirty        // 40-word buffer full of B−1, now holding a 1-word value
 	numPre
 )
 
